@@ -1,11 +1,16 @@
 """C01 — every IK answer reproduces the requested pose."""
 from props import _ikcommon as K
+from props import _finish as F
 ID = "C01"
-COQ_TARGETS = ["Exec/Kin.vo", "Properties/C01.vo"]
-THEOREMS = ["C01_inverse_sound", "C01_continuing_sound", "C01_inverse_5dof_sound", "C01_continuing_5dof_sound"]
+COQ_TARGETS = ["Exec/Kin.vo", "Exec/Finish.vo", "Gen/Inverse.vo", "Properties/C01.vo"]
+THEOREMS = ["C01_inverse_sound", "C01_continuing_sound", "C01_inverse_5dof_sound", "C01_continuing_5dof_sound",
+            "C01_concrete_inverse", "C01_concrete_continuing", "C01_concrete_inverse_5dof", "C01_concrete_continuing_5dof"]
 LEVEL_TEXT = ("Coq theorems: every answer of the four entry points realises the requested pose (within the solver's accuracy) given the "
               "kernel contract (kernel rows are FK-cross-checked) and the FK verdict on singular candidates; answers adopted from a "
-              "0.125 um shifted pose only when the unshifted pose has no kernel answer")
+              "0.125 um shifted pose only when the unshifted pose has no kernel answer.  End to end (C01_concrete_*): for the concrete "
+              "kernel = finishing glue over the branch tables GENERATED from inverse_intern / inverse_intern_5_dof, every answer of every "
+              "entry point passed the pose comparison against the GENERATED forward kinematics (periodicity of FK under whole turns proved), "
+              "and every angle of plain inverse lies in [-pi, pi]; no kernel hypothesis left, only the meaning of nalgebra's comparison")
 LEVEL_NOTE = K.NOTE
 TECHNIQUE = K.TECH
 RULE = ("all KIN entry records; oracle cases: random robots (dof 5/6) x pose kinds (reachable, J5=0, J5=pi, unreachable, on the J1 axis, "
@@ -13,5 +18,14 @@ RULE = ("all KIN entry records; oracle cases: random robots (dof 5/6) x pose kin
         "f64 link-chain FK of every returned vector; non-trivial = at least one solution returned")
 EXPLANATION = "see LEVEL_NOTE"
 ASSUMPTIONS = K.ASSUME
-PARTIAL = ["the kernel contract (rows returned by inverse_intern passed compare_poses) is an oracle hypothesis here; NaN/inf inputs: sweep only"]
-correspondence, search = K.make("C01", lambda r: r["fn"] == "entry")
+PARTIAL = ["NaN/inf inputs: sweep only; the pose comparison (nalgebra) enters as a hypothesis on its verdict"]
+_corr, search = K.make("C01", lambda r: r["fn"] == "entry")
+
+
+def correspondence(tier, seed, n=None):
+    """KIN correspondence of the four entry points + the tails of both kernels (offsets/signs, finiteness, normalisation to
+    [-pi, pi], FK cross-check) on traced branch tables"""
+    res = _corr(tier, seed, n)
+    F.finish6(res, tier, seed, 3000 if tier == "thorough" else 300)
+    res["failures"] += F.finish5(res, tier, seed, 2000 if tier == "thorough" else 200)
+    return res
